@@ -270,7 +270,41 @@ func zzC08SessionLevel() {
 	}
 }
 
-func ZZ_C08_Heartbeat()     { zzC08Heartbeat() }
-func ZZ_C08_AssocNoNodeID() { zzC08AssocNoNodeID() }
-func ZZ_C08_Establish()     { zzC08Establish() }
-func ZZ_C08_SessionLevel()  { zzC08SessionLevel() }
+// the answer to a retransmitted request is a response too: it must still go to the requester,
+// echo ITS sequence number and be of ITS type, whatever was answered in between
+func zzC08Retransmission() {
+	l := zzStartLoop(false)
+	s1 := zzSeq24("seq1")
+	s2 := zzSeq24("seq2")
+	p2 := nondetChoice("second-peer", 2)
+	kind2 := nondetChoice("second-kind", 2)
+	if p2 == 0 {
+		zzAssume(s1 != s2)
+	}
+	l.feed(zzMarshal(zzAssocReq(s1, zzNodeA)), zzAddrA)
+	zzAssert("C08.rtx.first-answered", zzSentCount() == 1)
+	if kind2 == 0 {
+		l.feed(zzMarshal(zzHbReq(s2)), zzAddr(p2))
+	} else {
+		l.feed(zzMarshal(zzAssocReq(s2, zzNodeID(p2))), zzAddr(p2))
+	}
+	zzAssert("C08.rtx.second-answered", zzSentCount() == 2)
+	l.feed(zzMarshal(zzAssocReq(s1, zzNodeA)), zzAddrA)
+	zzAssert("C08.rtx.duplicate-answered", zzSentCount() == 3)
+	if zzSentCount() == 3 {
+		b := zzSentBytes(2)
+		h := zzParseHdr(b)
+		zzAssert("C08.rtx.wellformed", h.ok)
+		zzAssert("C08.rtx.to-requester", zzSentAddr(2).String() == zzAddrA.String())
+		zzAssert("C08.rtx.echoes-its-own-sequence", h.seq == s1)
+		zzAssert("C08.rtx.its-own-type", h.typ == 6)
+	}
+	l.stop()
+	zzCover("C08.rtx.done")
+}
+
+func ZZ_C08_Retransmission() { zzC08Retransmission() }
+func ZZ_C08_Heartbeat()      { zzC08Heartbeat() }
+func ZZ_C08_AssocNoNodeID()  { zzC08AssocNoNodeID() }
+func ZZ_C08_Establish()      { zzC08Establish() }
+func ZZ_C08_SessionLevel()   { zzC08SessionLevel() }
